@@ -56,7 +56,7 @@ func workerC15(r *vk.Run, w, n int, args []string) {
 }
 
 func sessionC15(r *vk.Run, rng *rand.Rand, idx int) {
-	g := geom{layout: []string{"default", "reverse", "reverse-list"}[rng.Intn(3)], info: []string{"default", "inline", "hidden"}[rng.Intn(3)]}
+	g := geom{layout: []string{"default", "reverse", "reverse-list"}[rng.Intn(3)], info: []string{"default", "inline", "hidden", "inline-right"}[rng.Intn(4)]}
 	g.border = rng.Intn(3) == 0
 	g.multi = rng.Intn(2) == 0
 	if rng.Intn(3) == 0 {
@@ -73,12 +73,15 @@ func sessionC15(r *vk.Run, rng *rand.Rand, idx int) {
 	}
 	cols, rows := 30+rng.Intn(80), 8+rng.Intn(22)
 	// (--height mode moves the fzf area inside the terminal; only fullscreen geometry is parsed here)
-	fzfArgs := []string{"--no-unicode", "--pointer", ">", "--marker", "*", "--ellipsis", "..", "--no-scrollbar", "--no-mouse", "--no-separator", "--layout=" + g.layout}
+	nonce := "PRM>"
+	fzfArgs := []string{"--prompt", nonce + " ", "--no-unicode", "--pointer", ">", "--marker", "*", "--ellipsis", "..", "--no-scrollbar", "--no-mouse", "--no-separator", "--layout=" + g.layout}
 	switch g.info {
 	case "inline":
 		fzfArgs = append(fzfArgs, "--info=inline")
 	case "hidden":
 		fzfArgs = append(fzfArgs, "--info=hidden")
+	case "inline-right":
+		fzfArgs = append(fzfArgs, "--info=inline-right")
 	}
 	if g.border {
 		fzfArgs = append(fzfArgs, "--border")
@@ -106,6 +109,15 @@ func sessionC15(r *vk.Run, rng *rand.Rand, idx int) {
 			l := fmt.Sprintf("%s%03d %s", tag, i, []string{"alpha", "beta", "gamma", "ab", "x"}[i%5])
 			if i%4 == 3 {
 				l += " " + strings.Repeat("long-tail-", 12) + fmt.Sprintf("end%d", i)
+			} else if i%4 == 1 {
+				// lengths around the point where a line stops fitting (window, or window inside a border)
+				want := cols - 7 + (i/4)%7
+				if i%8 == 5 {
+					want -= 4
+				}
+				for len(l) < want {
+					l += string(rune('a' + len(l)%26))
+				}
 			}
 			out = append(out, l)
 		}
@@ -181,7 +193,7 @@ func sessionC15(r *vk.Run, rng *rand.Rand, idx int) {
 				}
 				s.Signal(syscall.SIGWINCH)
 				after := s.WaitRedraw(cols, rows, 3*time.Second)
-				r.Inconclusive(fmt.Sprintf("fzf did not redraw for the new size %dx%d (tmux pane is %s; redraws so far %v; history %v; after a manual SIGWINCH: %v; args %v)", cols, rows, psz, redraws, tailS(hist, 8), after, fzfArgs[10:]))
+				r.Inconclusive(fmt.Sprintf("fzf did not redraw for the new size %dx%d (tmux pane is %s; redraws so far %v; history %v; after a manual SIGWINCH: %v; args %v)", cols, rows, psz, redraws, tailS(hist, 8), after, fzfArgs[12:]))
 				return
 			}
 		}
@@ -193,46 +205,35 @@ func sessionC15(r *vk.Run, rng *rand.Rand, idx int) {
 			}
 			return
 		}
-		// nonce handshake
-		nonce := fmt.Sprintf("N%04x>", rng.Intn(65536))
-		if code, err := s.Post("change-prompt(" + nonce + " )"); err != nil || code != 200 {
-			r.Inconclusive("nonce post failed")
-			return
-		}
+		// The prompt is fixed ("PRM> "); nothing is posted between the last action and the comparison, so
+		// a row the last actions should have repainted, but did not, is still stale when it is read.
+		// tmux is synchronised by order, not by time: SyncScreen returns once everything fzf wrote has
+		// been interpreted. A screen is paired with a state when the state read before and after it is
+		// the same and the hook trace did not grow in between.
 		var scr []string
-		seen := false
-		for poll := 0; poll < 200; poll++ {
-			scr, _ = s.Capture()
-			if strings.Contains(strings.Join(scr, "\n"), nonce) {
-				seen = true
-				break
-			}
-			time.Sleep(10 * time.Millisecond)
-		}
-		if !seen {
-			r.Inconclusive("the nonce prompt never appeared on the screen")
-			return
-		}
-		// read the state, then wait until the screen is stable (two identical captures) and the state
-		// read after it is still the same: ordering, not timing, pairs a screen with a state
 		var st *tty.Status
 		stable := false
 		for attempt := 0; attempt < 100 && !stable; attempt++ {
+			n0 := len(s.Trace())
 			st1, err := s.Get(1000000)
 			if err != nil {
 				r.Inconclusive("GET: " + err.Error())
 				return
 			}
+			if !s.SyncScreen(10 * time.Second) {
+				r.Inconclusive("tmux did not acknowledge the synchronisation mark")
+				return
+			}
 			a, _ := s.Capture()
-			time.Sleep(30 * time.Millisecond)
-			b, _ := s.Capture()
 			st2, err := s.Get(1000000)
 			if err != nil {
 				r.Inconclusive("GET: " + err.Error())
 				return
 			}
-			if strings.Join(a, "\n") == strings.Join(b, "\n") && sameState(st1, st2) && strings.Contains(strings.Join(b, "\n"), nonce) {
-				scr, st, stable = b, st2, true
+			if sameState(st1, st2) && len(s.Trace()) == n0 {
+				scr, st, stable = a, st2, true
+			} else {
+				time.Sleep(20 * time.Millisecond)
 			}
 		}
 		if !stable {
@@ -247,7 +248,7 @@ func sessionC15(r *vk.Run, rng *rand.Rand, idx int) {
 			sawTrunc = true
 		}
 		if why != "" {
-			r.Violate(vk.Violation{Summary: fmt.Sprintf("C15: %s (options %v, window %dx%d, last actions %v)", why, fzfArgs[11:], cols, rows, tailS(hist, 5)),
+			r.Violate(vk.Violation{Summary: fmt.Sprintf("C15: %s (options %v, window %dx%d, last actions %v)", why, fzfArgs[13:], cols, rows, tailS(hist, 5)),
 				Witness: map[string]any{"fzf_args": fzfArgs, "cols": cols, "rows": rows, "history": hist, "screen": scr,
 					"state": map[string]any{"query": st.Query, "position": st.Position, "matchCount": st.MatchCount, "totalCount": st.TotalCount, "selected": st.Selected, "matches_head": headItems(st.Matches, 12)}}})
 			return
@@ -322,6 +323,26 @@ func compareScreen(scr []string, st *tty.Status, g geom, nonce string, headerLin
 			ptext = ""
 		}
 	}
+	if g.info == "inline-right" {
+		// "query            3/10 (1)": the counts are right-aligned on the prompt row
+		if loc := infoRe.FindAllStringIndex(ptext, -1); len(loc) > 0 {
+			last := loc[len(loc)-1]
+			if last[1] == len(strings.TrimRight(ptext, " ")) && last[0] > 0 && ptext[last[0]-1] == ' ' {
+				infoText = ptext[last[0]:]
+				ptext = strings.TrimRight(ptext[:last[0]], " ")
+			}
+		}
+		if infoText == "" {
+			want := fmt.Sprintf("%d/%d", st.MatchCount, st.TotalCount)
+			if len(nonce)+1+len(st.Query)+1+len(want)+8 < width {
+				return fmt.Sprintf("the prompt row %q does not show the counts %s although there is room", rows[prow], want), false, 0
+			}
+			infoText = want // no room: nothing to compare
+			if g.multi && len(st.Selected) > 0 {
+				infoText += fmt.Sprintf(" (%d)", len(st.Selected))
+			}
+		}
+	}
 	wantQ := strings.TrimRight(st.Query, " ")
 	if strings.TrimRight(ptext, " ") != wantQ {
 		// a query longer than the row is scrolled: accept a suffix/infix only when it cannot fit
@@ -362,20 +383,38 @@ func compareScreen(scr []string, st *tty.Status, g geom, nonce string, headerLin
 	}
 	// header rows: the header texts, each exactly once, with the two-column gutter blank
 	headers := append(append([]string{}, g.header...), headerLines...)
+	var hrow []int
 	for _, h := range headers {
 		found := 0
 		for i, l := range rows {
 			if used[i] {
 				continue
 			}
-			if strings.HasPrefix(l, "  ") && truncMatches(l[2:], h, width-2) {
+			if strings.HasPrefix(l, "  ") && truncMatches(l[2:], h, width) {
 				found++
 				used[i] = true
+				hrow = append(hrow, i)
 				break
 			}
 		}
 		if found != 1 {
 			return fmt.Sprintf("header line %q is not shown (or shown with a pointer/marker)", h), false, 0
+		}
+	}
+	// order: the lines of --header read top to bottom in every layout (man page); the lines taken by
+	// --header-lines follow the direction of the list
+	for i := 1; i < len(g.header); i++ {
+		if hrow[i] != hrow[i-1]+1 {
+			return fmt.Sprintf("the --header lines are not on consecutive rows in the given order (rows %v)", hrow[:len(g.header)]), false, 0
+		}
+	}
+	for i := len(g.header) + 1; i < len(hrow); i++ {
+		d := hrow[i] - hrow[i-1]
+		if g.layout == "default" {
+			d = -d
+		}
+		if d != 1 {
+			return fmt.Sprintf("the --header-lines rows do not follow the direction of the list (rows %v, layout %s)", hrow[len(g.header):], g.layout), false, 0
 		}
 	}
 	// list rows: everything else that is not blank
@@ -441,7 +480,7 @@ func compareScreen(scr []string, st *tty.Status, g geom, nonce string, headerLin
 	trunc := false
 	for i, lr := range list {
 		it := st.Matches[off+i]
-		if !truncMatches(lr.text, it.Text, width-2) {
+		if !truncMatches(lr.text, it.Text, width) {
 			return fmt.Sprintf("list row %d shows %q, the result at position %d is %q", i, lr.text, off+i, it.Text), false, len(list)
 		}
 		if lr.text != it.Text {
@@ -454,17 +493,19 @@ func compareScreen(scr []string, st *tty.Status, g geom, nonce string, headerLin
 	return "", trunc, len(list)
 }
 
-// truncMatches: shown equals text, or text does not fit and shown is a contiguous part of it with
-// the ellipsis ".." at the cut end(s), not wider than the window.
+// truncMatches: width is the width of the list window. fzf keeps a two-column gutter and reserves
+// the last column, so a text of up to width-3 columns fits and must be shown complete; a text wider
+// than width-2 cannot be complete; in both cases a cut form is a contiguous part of the text with the
+// ellipsis ".." at the cut end(s) and never reaches beyond the window.
 func truncMatches(shown, text string, width int) bool {
 	shown = strings.TrimRight(shown, " ")
+	if len(shown) > width-2 {
+		return false
+	}
 	if shown == strings.TrimRight(text, " ") {
 		return true
 	}
-	if len(text) <= width {
-		return false
-	}
-	if len(shown) > width {
+	if len(text) <= width-3 {
 		return false
 	}
 	core := shown
